@@ -100,19 +100,20 @@ Theorem C02_deep_folding_is_invisible :
   (forall a, R a a) -> (forall a b, R a b -> R b a) -> (forall a b c, R a b -> R b c -> R a c) ->
   (forall k a a' b b', R a a' -> R b b' -> R (binf C k a b) (binf C k a' b')) ->
   (forall k a a', R a a' -> R (unf C k a) (unf C k a')) ->
-  forall (flagged : nat -> Prop),
-  (forall k, flagged k -> forall a b c, R (binf C k (binf C k a b) c) (binf C k a (binf C k b c))) ->
+  forall (okop : dbop -> Prop),
+  (forall o, okop o -> bcomm o = true ->
+     forall a b c, R (binf C (bidx o) (binf C (bidx o) a b) c) (binf C (bidx o) a (binf C (bidx o) b c))) ->
   forall (look : nat -> str -> D) (okvar : nat -> str -> Prop) (okvars : list str -> Prop) (vals : list D),
   (forall v, okvars v -> length v <= length vals) ->
   (forall i x, okvar i x -> i < length vals /\ look i x = nth i vals (dflt C)) ->
-  forall e : deepex D, dwf flagged okvar okvars e ->
-  exists e' v v', dcompile C e = Ok e' /\ dwf flagged okvar okvars e' /\ R (dden C look e') (dden C look e) /\
+  forall e : deepex D, dwf okop okvar okvars e ->
+  exists e' v v', dcompile C e = Ok e' /\ dwf okop okvar okvars e' /\ R (dden C look e') (dden C look e) /\
                   eval_deep_relaxed C e vals = Ok v /\ eval_deep_relaxed C e' vals = Ok v' /\ R v' v.
 Proof.
-  intros D C R Hr Hs Ht Hb Hu flagged Ha look okvar okvars vals Hok Hlook e Hwf.
-  destruct (dcompile_ok C R Hr Hs Ht Hb Hu flagged Ha look okvar okvars e Hwf) as (e' & Hc & Hwf' & HR).
-  destruct (eval_deep_is_dden C R Hr Hs Ht Hb Hu flagged Ha look okvar okvars vals Hok Hlook e Hwf) as (v & Ev & Rv).
-  destruct (eval_deep_is_dden C R Hr Hs Ht Hb Hu flagged Ha look okvar okvars vals Hok Hlook e' Hwf') as (v' & Ev' & Rv').
+  intros D C R Hr Hs Ht Hb Hu okop Ha look okvar okvars vals Hok Hlook e Hwf.
+  destruct (dcompile_ok C R Hr Hs Ht Hb Hu okop Ha look okvar okvars e Hwf) as (e' & Hc & Hwf' & HR).
+  destruct (eval_deep_is_dden C R Hr Hs Ht Hb Hu okop Ha look okvar okvars vals Hok Hlook e Hwf) as (v & Ev & Rv).
+  destruct (eval_deep_is_dden C R Hr Hs Ht Hb Hu okop Ha look okvar okvars vals Hok Hlook e' Hwf') as (v' & Ev' & Rv').
   exists e', v, v'. repeat split; try assumption.
   eapply Ht; [exact Rv'|]. eapply Ht; [exact HR|]. apply Hs. exact Rv.
 Qed.
@@ -120,6 +121,7 @@ Qed.
 (* 6. the deep expression of every well-formed surface tree (the deep parser always folds) is the reference semantics *)
 Theorem C02_deep_parse_is_reference :
   forall (D : Type) (C : carrier D) (tb : optable) (R : D -> D -> Prop),
+  wf_table tb = true ->
   (forall a, R a a) -> (forall a b, R a b -> R b a) -> (forall a b c, R a b -> R b c -> R a c) ->
   (forall k a a' b b', R a a' -> R b b' -> R (binf C k a b) (binf C k a' b')) ->
   (forall k a a', R a a' -> R (unf C k a) (unf C k a')) ->
@@ -132,8 +134,8 @@ Theorem C02_deep_parse_is_reference :
     eval_deep C e vals = Ok v /\
     R v (ref_chain C tb (find_parsed_vars (flatten c)) vals c).
 Proof.
-  intros D C tb R Hr Hs Ht Hb Hu Ha c vals Hwf Hlen.
-  exact (deep_parse_is_reference C tb R Hr Hs Ht Hb Hu Ha c vals Hwf Hlen).
+  intros D C tb R Hwt Hr Hs Ht Hb Hu Ha c vals Hwf Hlen.
+  exact (deep_parse_is_reference C tb Hwt R Hr Hs Ht Hb Hu Ha c vals Hwf Hlen).
 Qed.
 
 (* non-vacuity: 1+2+x*3*4 over a small table folds to two operators less and is the same term up to regrouping *)
